@@ -20,7 +20,7 @@ Fields ==
    kv3_type |-> {"4", "8", "11", "12"},     \* general.parameter_count declared in another type (value written in that type)
    t0_namelen |-> Len64, t0_dims |-> {"0", "1", "4", "5", "2^16", "2^32-1"}, t0_shape0 |-> {"0", "2^32", "2^63", "2^64-1"},
    t0_kind |-> {"1", "2", "31", "2^32-1"}, t0_offset |-> {"1", "2^63", "2^64-1"},
-   t1_namelen |-> Len64, t1_dims |-> {"0", "4", "2^32-1"}, t1_kind |-> {"2", "31"}, t1_offset |-> {"1", "2^63-1", "2^64-1"},
+   t1_namelen |-> Len64, t1_dims |-> {"0", "4", "2^32-1"}, t1_shape0 |-> {"wrap-to-0", "wrap-to-8", "2^63", "2^64-1"}, t1_kind |-> {"2", "31"}, t1_offset |-> {"1", "2^63-1", "2^64-1"},
    cut |-> {"hdr", "kv0.key", "kv0.val", "kv1.arr", "kv1.mid", "kv1.mid+3", "kv2", "t0.name", "t0.shape", "t1", "pad", "data", "data-1"}]
 Names == DOMAIN Fields
 Muts == {[f |-> f, v |-> v] : f \in Names, v \in UNION {Fields[x] : x \in Names}} \cap
